@@ -136,9 +136,15 @@ def seeded(pid_filter, seed):
         try:
             ap = subprocess.run(['patch', '-p1', '-s', '-i', os.path.join(base, name, 'patch.diff')],
                                 cwd=d, capture_output=True, text=True)
-            if ap.returncode != 0:
-                raise HarnessError('seeded %s: patch does not apply: %s' % (name, ap.stdout + ap.stderr))
             rec = {'seeded': name, 'pid': pid}
+            if ap.returncode != 0:
+                # (later fix: commits in /repo may touch the same lines; the patch
+                # then needs porting -- reported, and counted as not killed)
+                rec.update(killed=False, note='patch does not apply to the current tree: ' +
+                           (ap.stdout + ap.stderr)[:200])
+                results.append(rec)
+                print(json.dumps(rec), flush=True)
+                continue
             if pid in core.PROPS:
                 rc, out, wall = run_check_on(d, pid, seed=seed)
                 sigs = re.findall(r'^violation (\S+)', out, re.M)
